@@ -93,11 +93,11 @@ Print Assumptions c17_session_held_not_kicked.
 (** Exit condition, "only if": the process is gone only because of SIGTERM, or because the main
     loop received an exit message that was sent by a drain delivery that saw total = 0 in admin-only
     mode, or by the timer (armed by a SIGINT). *)
-Theorem c17_exit_condition : forall tz cap tr st x, run (init tz cap) tr = Some st -> exited st = Some x ->
+Theorem c17_exit_condition : forall tz cap b tr st x, run (init tz cap b) tr = Some st -> exited st = Some x ->
   match x with
   | ByTerm => In Sigterm tr
   | ByZero => In ExitDeliver tr /\
-              exists tr1 tr2 s1, tr = tr1 ++ DrainDeliver :: tr2 /\ run (init tz cap) (tr1 ++ [DrainDeliver]) = Some s1 /\
+              exists tr1 tr2 s1, tr = tr1 ++ DrainDeliver :: tr2 /\ run (init tz cap b) (tr1 ++ [DrainDeliver]) = Some s1 /\
                                  admin_only s1 = true /\ total s1 = 0
   | ByTimer => In ExitDeliver tr /\ exists tr1 tr2, tr = tr1 ++ TimerFire :: tr2 /\ In Sigint tr1
   end.
@@ -123,14 +123,13 @@ Theorem c17_exit_message_exits : forall st x, exited st = None -> main_ok st = t
 Proof. exact exit_deliver_enabled. Qed.
 Print Assumptions c17_exit_message_exits.
 
-(** "if", part 3: once all counted clients have left and none died in a panic, delivering what is
-    in flight gives the exit — unless the loop wedges on the way (see below). *)
-Theorem c17_exit_when_all_left : forall st, reachable st -> exited st = None -> main_ok st = true ->
-  admin_only st = true -> ncounted (clients st) = 0 -> leaked st = 0 ->
-  exists k st', (k <= length (queue st))%nat /\ run st (repeat DrainDeliver k) = Some st' /\
-                (wedged st' = true \/
-                 exists x st'', x <> ByTerm /\ step st' ExitDeliver = Some st'' /\ exited st'' = Some x).
-Proof. exact r_all_left_exits. Qed.
+(** "if", part 3: once all counted clients have left and none died in a panic, delivering what is in
+    flight IS the exit (code as it is, [blk = false]: a zero seen twice is dropped, nothing blocks). *)
+Theorem c17_exit_when_all_left : forall st, reachable st -> blk st = false -> exited st = None -> main_ok st = true ->
+  (0 < qcap st)%nat -> admin_only st = true -> ncounted (clients st) = 0 -> leaked st = 0 ->
+  exists k st' x st'', (k <= length (queue st))%nat /\ run st (repeat DrainDeliver k) = Some st' /\
+                       x <> ByTerm /\ step st' ExitDeliver = Some st'' /\ exited st'' = Some x.
+Proof. exact all_left_exits_real. Qed.
 Print Assumptions c17_exit_when_all_left.
 
 (** "if", part 4: shutdown_timeout.  In admin-only mode with a non-zero timeout and a main loop that
@@ -164,9 +163,38 @@ Theorem c17_panic_leaks_counter : forall tr st st', reachable st -> 0 < leaked s
 Proof. exact r_panic_leaks_counter. Qed.
 Print Assumptions c17_panic_leaks_counter.
 
-(** THE DEFECT (exit channel of capacity one, written by the loop that reads it).  A wedged main
-    loop never exits and never accepts, drains or handles a signal again; the only step that wedges is
-    a drain delivery that sees zero while an exit message is still unread. *)
+(** LIVENESS (no guard): with the code as it is ([blk = false]: [try_send] into the channels the loop reads
+    itself; shutdown_timeout > 0: config.rs rejects 0) the main loop is never suspended for ever, and in
+    admin-only mode the process can always leave — by the timer at the latest — whatever the clients do,
+    wherever the loop is (also in the middle of the SIGINT arm, also with a full drain channel). *)
+Theorem c17_never_wedged : forall st, reachable st -> blk st = false -> wedged st = false.
+Proof. exact never_wedged. Qed.
+Print Assumptions c17_never_wedged.
+
+Theorem c17_exit_liveness : forall st, reachable st -> blk st = false -> tzero st = false -> exited st = None ->
+  admin_only st = true ->
+  exists tr' st', run st tr' = Some st' /\ exists x, exited st' = Some x /\ x <> ByTerm.
+Proof. exact exit_liveness. Qed.
+Print Assumptions c17_exit_liveness.
+
+(** the two places where the loop used to wait: a zero seen while an exit message is unread is dropped;
+    SIGINT with a full drain channel drops its 0, arms the timer and goes on (the counter is evaluated at
+    the next delivery: [c17_zero_sends_exit]) *)
+Theorem c17_second_zero_dropped : forall st st' x, step st DrainDeliver = Some st' -> blk st = false ->
+  exit_q st = Some x -> exit_q st' = Some x /\ wedged st' = wedged st /\ main_ok st' = main_ok st.
+Proof. exact second_zero_dropped. Qed.
+Print Assumptions c17_second_zero_dropped.
+
+Theorem c17_sigint_full_goes_on : forall st, exited st = None -> mid_sigint st = true -> wedged st = false ->
+  blk st = false -> (qcap st <= length (queue st))%nat ->
+  exists st', step st SigintQ = Some st' /\ queue st' = queue st /\ main_ok st' = true /\
+              tmr st' = (if tzero st then TDead else TArmed).
+Proof. exact sigint_full_goes_on. Qed.
+Print Assumptions c17_sigint_full_goes_on.
+
+(** MUTANT [blk = true] = the code before commit 74943d0 ([send().await] into channels the loop reads
+    itself).  Kept so that the theorems above are seen to discriminate: the mutant wedges, a wedged loop
+    never exits nor accepts, and the only wedging steps are the two awaits. *)
 Theorem c17_wedge_is_forever : forall tr st st', wedged st = true -> exited st = None -> run st tr = Some st' ->
   wedged st' = true /\ exited st' = None.
 Proof. exact wedge_forever. Qed.
@@ -178,58 +206,46 @@ Theorem c17_wedge_origin : forall st e st', step st e = Some st' -> wedged st = 
 Proof. exact wedge_origin. Qed.
 Print Assumptions c17_wedge_origin.
 
-(** "exits once all clients have left or shutdown_timeout has passed" is FALSE on the schedules
-    [wedge_overtake] (one idle client, SIGINT: its -1 overtakes the 0 of the SIGINT arm), [wedge_inflight]
-    and [wedge_cancel] (Proofs.v): every client has left AND the timeout has passed, and no continuation
-    whatsoever exits.  The witness below is [wedge_overtake]. *)
-Theorem c17_exit_liveness_refuted : exists tr st, run (init false 2048) tr = Some st /\
+(** mutant, schedule W1' [wedge_overtake] (one idle client, SIGINT: its -1 overtakes the 0 of the SIGINT
+    arm; also W1 [wedge_inflight], W2 [wedge_cancel], Proofs.v): every client has left AND the timeout has
+    passed, and no continuation whatsoever exits.  (Reproduced on the binary before the repair.) *)
+Theorem c17_mutant_await_exit_liveness_refuted : exists tr st, run (init false 2048 true) tr = Some st /\
   all_gone st = true /\ tmr st = TBlocked /\ total st = 0 /\ queue st = [] /\
   forall tr' st', run st tr' = Some st' -> exited st' = None.
 Proof. exact exit_liveness_refuted. Qed.
-Print Assumptions c17_exit_liveness_refuted.
+Print Assumptions c17_mutant_await_exit_liveness_refuted.
 
-(** schedule W3: SIGINT while the drain channel is full (a burst of cancel requests or of
-    connects/disconnects that the main loop has not received yet): the loop is suspended in its own
-    [drain_tx.send(0)] BEFORE the timer task exists — admin-only mode, every client gone, no timer,
-    no exit, for ever.  (Witness computed for a 64-slot channel and 32 requests; the real bound is 2048.) *)
-Theorem c17_sigint_on_full_channel_refuted : exists cap tr st, run (init false cap) tr = Some st /\
+(** mutant, schedule W3: SIGINT while the drain channel is full: suspended in its own [drain_tx.send(0)]
+    BEFORE the timer task exists.  (Witness for a 64-slot channel and 32 requests.) *)
+Theorem c17_mutant_await_sigint_full_refuted : exists cap tr st, run (init false cap true) tr = Some st /\
   all_gone st = true /\ admin_only st = true /\ tmr st = TNone /\
   forall tr' st', run st tr' = Some st' -> exited st' = None /\ tmr st' = TNone.
 Proof. exact sigint_full_refuted. Qed.
-Print Assumptions c17_sigint_on_full_channel_refuted.
+Print Assumptions c17_mutant_await_sigint_full_refuted.
 
-(** SECOND DEFECT (counting starts after the client has been answered).  "Exits once all clients have
-    left" is false in the other direction, too: a non-admin client that was accepted before SIGINT and
-    has been told it is connected (AuthenticationOk .. ReadyForQuery; it may have sent BEGIN) is in
+(** mutant config shutdown_timeout = 0 (rejected by config.rs since 6453b21): the timer never fires. *)
+Theorem c17_mutant_zero_timeout_no_timer : forall st, reachable st -> tzero st = true -> step st TimerFire = None.
+Proof. exact r_tzero_no_timer. Qed.
+Print Assumptions c17_mutant_zero_timeout_no_timer.
+
+(** OPEN DEFECT E1 (counting starts after the client has been answered; code as it is).  "Exits once all
+    clients have left" is false in the other direction: a non-admin client that was accepted before SIGINT
+    and has been told it is connected (AuthenticationOk .. ReadyForQuery; it may have sent BEGIN) is in
     nobody's count until its task has sent the +1; a SIGINT handled in that window sees zero and the
-    process exits at once under the client (it is neither refused nor told to go, and its transaction is
-    not allowed to finish although shutdown_timeout has not passed). *)
-Theorem c17_exit_before_counted_refuted : exists tr st c, run (init false 2048) tr = Some st /\
+    process exits at once under the client (neither refused nor told to go, its transaction not allowed to
+    finish although shutdown_timeout has not passed). *)
+Theorem c17_exit_before_counted_refuted : exists tr st c, run init_real tr = Some st /\
   exited st = Some ByZero /\ In (OAdmitted 0) (log st) /\ ~ In (OKicked 0) (log st) /\
   nth_error (clients st) 0 = Some c /\ cphase c = Authed /\ ckind c = Normal /\ gate c = false /\ tmr st = TArmed.
 Proof. exact exit_before_counted_refuted. Qed.
 Print Assumptions c17_exit_before_counted_refuted.
 
-(** the guard under which the liveness theorems above speak: [known_wedge tz tr] = the trace wedges *)
-Theorem c17_known_wedge_inhabited : exists tr, known_wedge false 2048 tr = true.
-Proof. exact known_wedge_refuted. Qed.
-Print Assumptions c17_known_wedge_inhabited.
-
-Theorem c17_exit_liveness_guarded : forall tz cap tr st, run (init tz cap) tr = Some st -> known_wedge tz cap tr = false ->
-  mid_sigint st = false -> exited st = None -> admin_only st = true -> tzero st = false ->
-  exists tr' st', run st tr' = Some st' /\ exists x, exited st' = Some x /\ x <> ByTerm.
-Proof. exact exit_liveness_guarded. Qed.
-Print Assumptions c17_exit_liveness_guarded.
-
-(** shutdown_timeout = 0 (accepted by config.rs): the timer never fires. *)
-Theorem c17_zero_timeout_no_timer : forall st, reachable st -> tzero st = true -> step st TimerFire = None.
-Proof. exact r_tzero_no_timer. Qed.
-Print Assumptions c17_zero_timeout_no_timer.
-
 (** * Non-vacuity / spec validation (every example is a full run from [init]) *)
 
-Definition final (tz : bool) (tr : list event) := option_map view (run (init tz 2048) tr).
-Definition final_script (tz : bool) (s : list sop) := option_map view (run_script (init tz 2048) s).
+Definition final (tz : bool) (tr : list event) := option_map view (run (init tz 2048 false) tr).
+Definition finalm (tr : list event) := option_map view (run (init false 2048 true) tr).      (* mutant: awaits *)
+Definition final_script (tz : bool) (s : list sop) := option_map view (run_script (init tz 2048 false) s).
+Definition finalm_script (s : list sop) := option_map view (run_script (init false 2048 true) s).
 
 (** The scenario of the property text: an idle client (0), a client inside a transaction (1) and an
     admin (2); SIGINT; a new normal client (3) and a new admin (4) arrive.  0 is kicked, 3 refused, 4
@@ -295,28 +311,34 @@ Example ex_late_auth :
   = Some (true, 0, None, false, [(Gone, false)], [OAdmitted 0; OServed 0; OServed 0; OKicked 0], 0).
 Proof. vm_compute. repeat split; reflexivity. Qed.
 
-(** lag: the +1 and -1 of a client are delivered after it left and after SIGINT was handled (the
-    same queue, with the 0 delivered before the exit arm runs, is wedge schedule W1) *)
+(** lag: the +1 and -1 of a client are delivered after it left and after SIGINT was handled; if the 0 is
+    delivered before the exit arm runs, the second zero is dropped and the exit arm exits (the mutant wedges) *)
 Example ex_lag :
   final false [Accept Normal TxnMode; AuthDone 0 true; Enter 0; Leave 0 Clean; Sigint; SigintQ; DrainDeliver; DrainDeliver; ExitDeliver]
   = Some (true, 0, Some ByZero, false, [(Gone, false)], [OAdmitted 0; OLeft 0 Clean; OExit ByZero], 0)
   /\
-  final false [Accept Normal TxnMode; AuthDone 0 true; Enter 0; Leave 0 Clean; Sigint; SigintQ; DrainDeliver; DrainDeliver; DrainDeliver]
+  final false [Accept Normal TxnMode; AuthDone 0 true; Enter 0; Leave 0 Clean; Sigint; SigintQ; DrainDeliver; DrainDeliver; DrainDeliver; ExitDeliver]
+  = Some (true, 0, Some ByZero, false, [(Gone, false)], [OAdmitted 0; OLeft 0 Clean; OExit ByZero], 0)
+  /\
+  finalm [Accept Normal TxnMode; AuthDone 0 true; Enter 0; Leave 0 Clean; Sigint; SigintQ; DrainDeliver; DrainDeliver; DrainDeliver]
   = Some (true, 0, None, true, [(Gone, false)], [OAdmitted 0; OLeft 0 Clean], 0).
-Proof. vm_compute. split; reflexivity. Qed.
+Proof. vm_compute. repeat split; reflexivity. Qed.
 
-(** the wedge schedules; with the exit arm polled in between, the same events exit normally; the
-    adversarial script order ([SAdv]) of the plain "one idle client, SIGINT" script is W1' *)
-Example ex_wedge :
-  final false wedge_overtake = Some (true, 0, None, true, [(Gone, false)], [OAdmitted 0; OKicked 0], 0) /\
-  final_script false [SEv (Accept Normal TxnMode); SEv (AuthDone 0 true); SAdv Sigint]
+(** the former wedge schedules W1', W1, W2 and the adversarial script order ([SAdv]) of "one idle client,
+    SIGINT": the code as it is exits (ExitDeliver appended where the schedule stops short), the mutant wedges *)
+Example ex_wedge_schedules :
+  finalm wedge_overtake = Some (true, 0, None, true, [(Gone, false)], [OAdmitted 0; OKicked 0], 0) /\
+  finalm wedge_inflight = Some (true, 0, None, true, [(Gone, false)], [OAdmitted 0; OLeft 0 Clean], 0) /\
+  finalm wedge_cancel = Some (true, 0, None, true, [(Gone, false)], [OLeft 0 Clean], 0) /\
+  finalm_script [SEv (Accept Normal TxnMode); SEv (AuthDone 0 true); SAdv Sigint]
     = Some (true, 0, None, true, [(Gone, false)], [OAdmitted 0; OKicked 0], 0) /\
-  final_script false [SEv (Accept Normal TxnMode); SEv (AuthDone 0 true); SEv Sigint]
+  final false (wedge_overtake ++ [ExitDeliver]) = Some (true, 0, Some ByZero, false, [(Gone, false)], [OAdmitted 0; OKicked 0; OExit ByZero], 0) /\
+  final false (wedge_inflight ++ [ExitDeliver]) = Some (true, 0, Some ByZero, false, [(Gone, false)], [OAdmitted 0; OLeft 0 Clean; OExit ByZero], 0) /\
+  final false (wedge_cancel ++ [ExitDeliver]) = Some (true, 0, Some ByZero, false, [(Gone, false)], [OLeft 0 Clean; OExit ByZero], 0) /\
+  final_script false [SEv (Accept Normal TxnMode); SEv (AuthDone 0 true); SAdv Sigint]
     = Some (true, 0, Some ByZero, false, [(Gone, false)], [OAdmitted 0; OKicked 0; OExit ByZero], 0) /\
-  final false wedge_inflight = Some (true, 0, None, true, [(Gone, false)], [OAdmitted 0; OLeft 0 Clean], 0) /\
-  final false wedge_cancel = Some (true, 0, None, true, [(Gone, false)], [OLeft 0 Clean], 0) /\
-  final false [Accept Normal TxnMode; AuthDone 0 true; Enter 0; DrainDeliver; Leave 0 Clean; Sigint; SigintQ; DrainDeliver; ExitDeliver]
-  = Some (true, 0, Some ByZero, false, [(Gone, false)], [OAdmitted 0; OLeft 0 Clean; OExit ByZero], 0).
+  final_script false [SEv (Accept Normal TxnMode); SEv (AuthDone 0 true); SEv Sigint]
+    = Some (true, 0, Some ByZero, false, [(Gone, false)], [OAdmitted 0; OKicked 0; OExit ByZero], 0).
 Proof. vm_compute. repeat split; reflexivity. Qed.
 
 (** E1 as a script: the client is answered, the SIGINT is handled before its task has sent the +1 *)
@@ -325,18 +347,22 @@ Example ex_exit_before_counted :
   = Some (true, 0, Some ByZero, false, [(Authed, false)], [OAdmitted 0; OExit ByZero], 0).
 Proof. vm_compute. reflexivity. Qed.
 
-(** W3 on a 4-slot channel: two cancel requests not yet received, then SIGINT *)
-Example ex_wedge_full :
-  option_map view (run (init false 4) [Accept Canc TxnMode; AuthDone 0 true; Enter 0; Leave 0 Clean;
-                                       Accept Canc TxnMode; AuthDone 1 true; Enter 1; Leave 1 Clean; Sigint; SigintQ])
+(** W3 on a 4-slot channel: two cancel requests not yet received, then SIGINT.  The code as it is drops the
+    0, arms the timer and exits when the queue has been delivered (the last -1 shows zero); the mutant wedges *)
+Definition w3 : list event := [Accept Canc TxnMode; AuthDone 0 true; Enter 0; Leave 0 Clean;
+                               Accept Canc TxnMode; AuthDone 1 true; Enter 1; Leave 1 Clean; Sigint; SigintQ].
+Example ex_full_channel :
+  option_map view (run (init false 4 true) w3)
   = Some (true, 0, None, true, [(Gone, false); (Gone, false)], [OLeft 0 Clean; OLeft 1 Clean], 0)
   /\
-  option_map view (run (init false 5) [Accept Canc TxnMode; AuthDone 0 true; Enter 0; Leave 0 Clean;
-                                       Accept Canc TxnMode; AuthDone 1 true; Enter 1; Leave 1 Clean; Sigint; SigintQ])
-  = Some (true, 0, None, false, [(Gone, false); (Gone, false)], [OLeft 0 Clean; OLeft 1 Clean], 0).
-Proof. vm_compute. split; reflexivity. Qed.
+  option_map (fun st => (view st, tmr st, length (queue st))) (run (init false 4 false) w3)
+  = Some ((true, 0, None, false, [(Gone, false); (Gone, false)], [OLeft 0 Clean; OLeft 1 Clean], 0), TArmed, 4%nat)
+  /\
+  option_map view (run (init false 4 false) (w3 ++ [DrainDeliver; DrainDeliver; DrainDeliver; DrainDeliver; ExitDeliver]))
+  = Some (true, 0, Some ByZero, false, [(Gone, false); (Gone, false)], [OLeft 0 Clean; OLeft 1 Clean; OExit ByZero], 0).
+Proof. vm_compute. repeat split; reflexivity. Qed.
 
-(** shutdown_timeout = 0 with a session-held client: the timer is dead, nothing ends the process *)
+(** mutant config shutdown_timeout = 0 with a session-held client: the timer is dead, nothing ends the process *)
 Example ex_zero_timeout :
   final_script true [SEv (Accept Normal SessMode); SEv (AuthDone 0 true); SEv (TxnStart 0); SEv (TxnEnd 0); SEv Sigint; SWaitTimer]
   = Some (true, 1, None, false, [(SessionHeld, true)], [OAdmitted 0; OServed 0], 0).
